@@ -36,15 +36,17 @@ Written(gs, i) == <<Shape(gs[i]), Kind(gs[i]), [k \in 1..Len(Cells(gs[i])) |-> I
 
 \* ---------- cases
 CONSTANTS Mode      \* "read": one grid x options | "write": sets of results written together and read back
-FloatVals == {Q(-5, 2), Q(-101, 100), Q(-1, 2), R(0), Q(1, 2), R(1), Q(101, 100), Q(13, 5), Q(7, 5)}
+\* 203/200: inside the padding of the Fuzzy check (1% of the range [-1, +1] = 0.02) but beyond half of it
+FloatVals == {Q(-5, 2), Q(-203, 200), Q(-101, 100), Q(-1, 2), R(0), Q(1, 2), R(1), Q(101, 100), Q(203, 200), Q(13, 5), Q(7, 5)}
 IntVals == {R(-2), R(0), R(1), R(3)}
 Shapes == {<<3>>, <<2, 2>>, <<1, 3>>}
 Size(s) == IF Len(s) = 1 THEN s[1] ELSE s[1] * s[2]
 GridsOf(s, kind, vals) == {<<s, kind, c>> : c \in [1..Size(s) -> vals \cup {MV}]}
 \* no value has a fractional part of exactly 1/2 (how ties are rounded is not stated)
+\* 203/200 and -203/200 lie inside the padding of the Fuzzy check (0.02) but beyond half of it
 \* (200001/200 = 1000.005 lies within 1e-5 (relative) of the missing value 1000 used below: only cells EQUAL to MissingValue are masked)
-ReadGrids == UNION {GridsOf(s, "f", {Q(-12, 5), Q(-2, 5), Q(3, 5), Q(101, 100), Q(13, 5)} \cup (IF s = <<3>> THEN {Q(200001, 200)} ELSE {})) : s \in {<<3>>, <<1, 3>>}}
-             \cup GridsOf(<<2, 2>>, "f", {Q(-101, 100), R(0), R(1), Q(7, 5)}) \cup GridsOf(<<3>>, "i", IntVals)
+ReadGrids == UNION {GridsOf(s, "f", {Q(-12, 5), Q(-2, 5), Q(3, 5), Q(101, 100), Q(203, 200), Q(13, 5)} \cup (IF s = <<3>> THEN {Q(200001, 200)} ELSE {})) : s \in {<<3>>, <<1, 3>>}}
+             \cup GridsOf(<<2, 2>>, "f", {Q(-203, 200), Q(-101, 100), R(0), R(1), Q(7, 5)}) \cup GridsOf(<<3>>, "i", IntVals)
 DTs == {"", "Float", "Integer", "Positive Float", "Positive Integer", "Fuzzy"}
 VARIABLES grids, mv, dt, out, done
 vars == <<grids, mv, dt, out, done>>
